@@ -220,7 +220,7 @@ def jobs_N1(ctx):
 def run_N0(ctx, case):
     """every instruction of the assembled runtime that the model decodes reads the same as LLVM's disassembler; prologue literal loads (N2)"""
     q = Q(10); syms, text, obj = ctx['a64']['syms'], ctx['a64']['text'], ctx['a64']['obj']
-    out = build.run(['llvm-objdump-14', '-d', '--no-show-raw-insn', obj]); ref = {}
+    out = build.run(['llvm-objdump-14', '-d', '--no-show-raw-insn', '--mattr=+aes', obj]); ref = {}
     for l in out.split('\n'):
         mm = re.match(r'\s*([0-9a-f]+):\s+(.*)$', l)
         if mm: ref[int(mm.group(1), 16)] = mm.group(2).strip()
@@ -229,7 +229,8 @@ def run_N0(ctx, case):
         rt = ref.get(off)
         if rt is None or '.word' in rt or rt.startswith('<unknown>') or rt.startswith('udf'): continue
         mem = Mem(); mem.alloc(len(text), 'c'); mem.objs['c']['default'] = lambda o: text[o]
-        m = Machine(mem, 'c'); m.decode_only = True; m.fpcr = z3.BitVec('f', 64); m.sp = z3.BitVec('s', 64)
+        from lemmas.a64frame import FrameMachine
+        m = FrameMachine(mem, 'c'); m.decode_only = True; m.fpcr = z3.BitVec('f', 64); m.sp = z3.BitVec('s', 64)
         m.v = [[z3.BitVec('dv%d_%d' % (k, l), 64) for l in range(2)] for k in range(32)]; m.fl = {k: z3.BitVec('fl' + k, 1) for k in 'NZCV'}; m.pc = off
         try: m.step()
         except Undecodable: skipped += 1; continue
